@@ -183,7 +183,8 @@ fn stepper_programs() -> Vec<Vec<u8>> {
     // every operator of the latest table, by opcode, with one and with two small operands (the stepping evaluator must hand each to the same operator)
     for (atom, name) in chialisp::classic::clvm::keyword_from_atom(2).iter() {
         if name == "q" || name == "a" || name == "x" || name == "softfork" { continue; }
-        for args in ["(q . 5)", "(q . 5) (q . 3)", "(q . 1000) (q . 7) (q . 13)"] {
+        // small numbers, and operands that are pairs (the whole environment, quoted pairs): operators that take atoms must fail on them (seed C06-e answered = itself)
+        for args in ["(q . 5)", "(q . 5) (q . 3)", "(q . 1000) (q . 7) (q . 13)", "1", "1 1", "(q . (1 . 2)) (q . (1 . 2))", "(q . 5) 1", "1 (q . 5)"] {
             let mut a = clvmr::Allocator::new();
             if let (Ok(op), Ok(rest)) = (a.new_atom(atom), chialisp::classic::clvm_tools::binutils::assemble(&mut a, &format!("({})", args))) {
                 if let Ok(p) = a.new_pair(op, rest) { if let Ok(b) = clvmr::serde::node_to_bytes(&a, p) { v.push(b); } }
@@ -1790,7 +1791,16 @@ pub fn search(name: &str, seed: u64) -> Value {
                 if let Some(v) = chk_reader(&t) { return v; }
             } }
             for t in [&b"(abcdef\tx yy)"[..], &b"(a\n\t(b c)\n  d)"[..], &b"       \t(q 1 2)"[..], &b"(\"a\\\"b\" c)"[..]] { if let Some(v) = chk_reader(t) { return v; } }
-            nf(&format!("reader locations and byte-at-a-time parsing agree with an independent position table on all {} texts of <= {} tokens over 13 token kinds (+ 4 tab / multi-line texts)", count, maxlen))
+            // #-prefixed operator names: every node is located in the text that was read (finding F54: the operator table's pseudo-file)
+            for t in ["(#a x)", "#c ", "(#q . 1)", "(x (#sha256 y) #+ )", "(#notanop x)"] {
+                let parsed = catch_unwind(|| chialisp::compiler::sexp::parse_sexp(chialisp::compiler::srcloc::Srcloc::start("*replay-text*"), t.bytes()));
+                if let Ok(Ok(forms)) = parsed {
+                    fn files(s: &chialisp::compiler::sexp::SExp, out: &mut Vec<String>) { out.push(s.loc().file.to_string()); if let chialisp::compiler::sexp::SExp::Cons(_, a, b) = s { files(a, out); files(b, out); } }
+                    let mut fs = vec![]; for f in forms.iter() { files(f, &mut fs); }
+                    if let Some(bad) = fs.iter().find(|f| f.as_str() != "*replay-text*") { return hit(json!({"text": t}), "every node located in *replay-text*".into(), format!("a node is located in {}", bad), "parse_sexp, file name of every node's location"); }
+                }
+            }
+            nf(&format!("reader locations and byte-at-a-time parsing agree with an independent position table on all {} texts of <= {} tokens over 13 token kinds (+ 4 tab / multi-line texts); every node of 5 texts with #-prefixed operator names is located in the text read", count, maxlen))
         }
         "cldb" => {
             let mut progs = stepper_programs();
@@ -1877,6 +1887,10 @@ pub fn search(name: &str, seed: u64) -> Value {
                 (vec!["(defun to-bool (X) (not (not X)))"], "(to-bool 5)"),
                 (vec!["(defun flag-bit (X Y) (logior (not (not X)) Y))"], "(flag-bit 2 4)"),
                 (vec!["(defun nz (X) (+ 10 (not (not X)) (not X)))"], "(nz (q 7 8))"),
+                // raw i with an empty-string condition and branches that do not reduce (seed C16-e took "" for true)
+                (vec![], "(a (i \"\" (lambda (x) (+ x 1)) (lambda (x) (* x 2))) (list 5))"),
+                (vec!["(defconstant NOTHING \"\")", "(defun pick (flag) (i flag (lambda (x) (+ x 1)) (lambda (x) (* x 2))))"], "(a (pick NOTHING) (list 5))"),
+                (vec![], "(a (i () (lambda (x) (+ x 1)) (lambda (x) (* x 2))) (list 5))"),
                 // the bare environment reference inside a function
                 (vec!["(defun WA (A B) @)"], "(WA 3 4)"),
             ];
@@ -1897,9 +1911,12 @@ pub fn search(name: &str, seed: u64) -> Value {
                 (vec!["(defun pairup (a b) (list a b))", "(defun c (x y) 97)", "(defun both ((@ w (a b))) (pairup w a))"], "(both X)"),
                 (vec!["(defun flag-bit (P Q) (logior (not (not P)) Q))"], "(flag-bit (f X) 4)"),
                 (vec!["(defun tb (P) (not (not P)))"], "(c (tb X) (tb (f X)))"),
+                (vec![], "(i \"\" (* (f X) 100) (+ (f X) 1))"),
+                (vec!["(defun-inline sel (cc p q) (i cc p q))"], "(sel \"\" (list (f X)) (c (f X) (f X)))"),
+                (vec![], "(i 0 (* (f X) 100) (+ (f X) 1))"),
             ];
             for (d, e) in open_cases.iter() { if let Some(v) = chk_repl_open(d, e, &open_args) { return v; } }
-            nf("29 closed REPL sessions and 12 open ones (boolean casts used for their value, the bare @ inside a function) (residual compiled and compared on 3 argument trees, incl. helpers spelled like the operators f / r / c) (arithmetic, recursion, inline, assign destructuring of 3/4/nested patterns, rest args, @ capture, constants, let/let*) reduce to the constant the compiled cl21 program returns")
+            nf("32 closed REPL sessions and 15 open ones (raw i with an empty-string condition and branches that do not reduce; boolean casts used for their value, the bare @ inside a function) (residual compiled and compared on 3 argument trees, incl. helpers spelled like the operators f / r / c) (arithmetic, recursion, inline, assign destructuring of 3/4/nested patterns, rest args, @ capture, constants, let/let*) reduce to the constant the compiled cl21 program returns")
         }
         "classic_meaning" | "symbol_table_for_tree" | "unit:inlinesel" | "unit:symtable" => {
             // programs without a dialect sigil go through the classic (CLVM-hosted) compiler
